@@ -84,19 +84,18 @@ func (mgr *GCMgr) UpdateCollision(bkt *Bucket, ki *KeyInfo, oldPos, newPos Posit
 }
 
 func (mgr *GCMgr) UpdateHtreePos(bkt *Bucket, ki *KeyInfo, oldPos, newPos Position) {
-	// TODO: should be a api of htree to be atomic
-	meta, _, ok := bkt.htree.get(ki)
 	if utils.VerifOn {
-		utils.Verif("g.repoint.mid", bkt.ID, ki.StringKey, ok, newPos.ChunkID, newPos.Offset)
+		utils.Verif("g.repoint.mid", bkt.ID, ki.StringKey, true, newPos.ChunkID, newPos.Offset)
 	}
-	if !ok {
-		logger.Warnf("old key removed when updating pos bucket %d %s %#v %#v",
-			bkt.ID, ki.StringKey, meta, oldPos)
-		return
+	// move the tree item only if it still points at the record just relocated: a client
+	// may have written the key (new position, new version) since gc looked at the tree
+	moved := bkt.htree.updatePos(ki, oldPos, newPos)
+	if !moved {
+		logger.Warnf("key changed while gc was moving it, bucket %d %s %#v",
+			bkt.ID, ki.StringKey, oldPos)
 	}
-	bkt.htree.set(ki, meta, newPos)
 	if utils.VerifOn {
-		utils.Verif("g.repoint", bkt.ID, ki.StringKey, newPos.ChunkID, newPos.Offset, meta.Ver)
+		utils.Verif("g.repoint", bkt.ID, ki.StringKey, newPos.ChunkID, newPos.Offset, moved)
 	}
 }
 
